@@ -59,6 +59,9 @@ func (k *Key) Private() *packet.PrivateKey {
 }
 
 func (k *Key) Validate() error {
+	if k == nil {
+		return fmt.Errorf("nil key")
+	}
 	if k.public == nil {
 		return fmt.Errorf("nil public key")
 	}
